@@ -339,6 +339,15 @@ class Prov:
                     return {("call", c)}
         if any(self._IDENTITY.search(n) for n in c.names()) and len(c.args) == 1 and not c.local:
             return self._op_sel(c.args[0], steps, depth, seen)
+        if c.matches(r"Try>::branch$") and len(c.args) == 1 and not c.local and steps and steps[0][0] == "variant" and steps[0][2] == 0:
+            # `x?`: ControlFlow::Continue(v) carries x's Ok / Some payload, Break(r) its Err payload
+            q = op_place(c.args[0])
+            ty = self.body.local_ty(q["l"]) if q is not None and not q["p"] else ""
+            is_res, is_opt = ty.startswith("std::result::Result<"), ty.startswith("std::option::Option<")
+            if steps[0][1] == 0 and (is_res or is_opt):
+                return self._op_sel(c.args[0], (("variant", 0 if is_res else 1, 0),) + tuple(steps[1:]), depth, seen)
+            if steps[0][1] == 1 and is_res and len(steps) >= 2 and steps[1] == ("variant", 1, 0):
+                return self._op_sel(c.args[0], (("variant", 1, 0),) + tuple(steps[2:]), depth, seen)
         if not is_pass_through(c, self.extra):
             cb = self._local_callee(c)
             if cb is not None:
